@@ -41,6 +41,50 @@ theorem reFunctionName_bounded : ScanBounded reFunctionName := by
     subst h; have := spanLen_le (fun c => isLower c || c = '_' || isDigit c) ‹_›; simp; omega
   · simp at h
 
+/-- a keyword match is the keyword, and it is a prefix of the input -/
+theorem reKeyword_some {kw inp : List Char} {n : Nat} (h : reKeyword kw inp = some n) :
+    n = kw.length ∧ kw.isPrefixOf inp = true := by
+  unfold reKeyword at h
+  split at h
+  · rename_i hp
+    split at h
+    · split at h
+      · cases h
+      · cases h; exact ⟨rfl, hp⟩
+    · cases h; exact ⟨rfl, hp⟩
+  · cases h
+
+theorem reKeyword_bounded (kw : List Char) : ScanBounded (reKeyword kw) := by
+  intro s k h
+  obtain ⟨rfl, hp⟩ := reKeyword_some h
+  exact (List.isPrefixOf_iff_prefix.mp hp).length_le
+
+/-- the keyword reading is rejected before a function-name character or `(` -/
+theorem reKeyword_none_of_follow {kw inp : List Char} {c : Char} {r : List Char}
+    (hd : inp.drop kw.length = c :: r)
+    (hc : (isLower c || c = '_' || isDigit c || c = '(') = true) : reKeyword kw inp = none := by
+  unfold reKeyword
+  split
+  · rw [hd]; simp only [hc, if_true]
+  · rfl
+
+/-- the keyword reading is accepted when the keyword is followed by another character -/
+theorem reKeyword_some_of_follow {kw inp : List Char} {c : Char} {r : List Char}
+    (hp : kw.isPrefixOf inp = true) (hd : inp.drop kw.length = c :: r)
+    (hc : (isLower c || c = '_' || isDigit c || c = '(') = false) : reKeyword kw inp = some kw.length := by
+  unfold reKeyword
+  rw [if_pos hp, hd]; simp only [hc]; rfl
+
+theorem reKeyword_some_of_end {kw inp : List Char}
+    (hp : kw.isPrefixOf inp = true) (hd : inp.drop kw.length = []) : reKeyword kw inp = some kw.length := by
+  unfold reKeyword
+  rw [if_pos hp, hd]
+
+theorem reKeyword_none_of_not_prefix {kw inp : List Char}
+    (hp : kw.isPrefixOf inp = false) : reKeyword kw inp = none := by
+  unfold reKeyword
+  simp [hp]
+
 theorem reSignedDigits_bounded : ScanBounded reSignedDigits := by
   intro s k h
   unfold reSignedDigits at h
@@ -353,6 +397,7 @@ macro "lex_inv" : tactic => `(tactic|
     | apply Lexer.Inv.emit | apply Lexer.Inv.error | apply Lexer.Inv.adv | apply Lexer.Inv.ignore
     | exact reWhitespace_bounded | exact reProperty_bounded | exact reIndex_bounded
     | exact reInt_bounded | exact reFloat_bounded | exact reFunctionName_bounded
+    | exact reKeyword_bounded _
     | refine Lexer.Inv.pushBracket ?_ _ (by first | exact Nat.le_refl _ | exact Nat.sub_le _ _)
     | refine Lexer.Inv.of_accept (by assumption) ?_
     | refine Lexer.Inv.of_acceptMatch (by assumption) ?_ ?_
